@@ -73,8 +73,22 @@ def gen(rng, tier, prop):
                 bursts.append({'poll': rng.randint(1, 40), 'keys': [[rng.choice(PLAIN), rng.choice(SAFE_SCANS)] for _ in range(k)]})
                 left -= k
             ops.append({'op': 'spin', 'bursts': bursts})
-        elif r < 0.96:
+        elif r < 0.94:
             ops.append({'op': 'resume'})
+        elif r < 0.96:
+            # as 'spin', with Ctrl+Break typed between the keys (also in the same poll) and CONT after each stop
+            bursts = []
+            left = rng.randint(2, 12)
+            nbreaks = 0
+            while left:
+                k = rng.randint(1, left)
+                items = [[rng.choice(PLAIN), rng.choice(SAFE_SCANS)] for _ in range(k)]
+                if nbreaks < 3 and rng.random() < 0.6:
+                    items.insert(rng.randint(0, len(items)), 'break')
+                    nbreaks += 1
+                bursts.append({'poll': rng.randint(1, 60), 'items': items})
+                left -= k
+            ops.append({'op': 'spinbreak', 'bursts': bursts, 'via': rng.choice(['inkey', 'inkey', 'input$'])})
         else:
             ops.append({'op': 'lineinput', 'text': ''.join(rng.choice(PLAIN[:62]) for _ in range(rng.randint(0, 8)))})
     cfg = {
@@ -232,6 +246,65 @@ def run(case):
                     run.probe('spin_runs')
                     if got != exp:
                         run.violate('C37', 'async-order-or-loss', 'program spinning on INKEY$ collected %r, typed %r' % (got, exp))
+                        return
+                    d.exec(b'DEF SEG=0')
+                elif k == 'spinbreak':
+                    keys = []
+                    for bu in sorted(op['bursts'], key=lambda x: x['poll']):
+                        keys.extend(it for it in bu['items'] if it != 'break')
+                    nbreaks = sum(1 for bu in op['bursts'] for it in bu['items'] if it == 'break')
+                    if len(keys) + len(model) > CAP or any(len(c) != 1 for c, _ in model):
+                        continue
+                    want = len(model) + len(keys)
+                    d.exec(b'NEW')
+                    d.exec(b'10 N=0:R$=""')
+                    if op['via'] == 'inkey':
+                        d.exec(b'20 WHILE N<%d:A$=INKEY$:IF A$<>"" THEN R$=R$+A$:N=N+1' % want)
+                    else:
+                        d.exec(b'20 WHILE N<%d:A$=INPUT$(1):R$=R$+A$:N=N+1' % want)
+                    d.exec(b'30 WEND')
+                    for bu in op['bursts']:
+                        for it in bu['items']:
+                            w.at_poll(bu['poll'], K.sig_break() if it == 'break' else K.sig_key(it[0], it[1], ()))
+                    exp = b''.join(c for c, _ in model) + b''.join(b(c) for c, _ in keys)
+                    del model[:]
+                    outs = []
+                    stops = 0
+                    started = True
+                    try:
+                        r = d.exec(b'RUN', poll_cap=5000)
+                        outs.append(r.out)
+                        while b'Break' in r.out and stops <= nbreaks:
+                            stops += 1
+                            if b'Break in ' not in r.out and len(outs) == 1:
+                                # the Break came before RUN had started the program: nothing to continue
+                                started = False
+                                break
+                            # (a Break that comes before CONT has taken effect leaves the stop position as it was)
+                            run.probe('break_then_cont')
+                            r = d.exec(b'CONT', poll_cap=5000)
+                            outs.append(r.out)
+                    except K.SimAbort:
+                        # every key has been typed long ago and the program still waits for one
+                        run.violate('C37', 'async-order-or-loss:with-break-between-keys:never-arrives',
+                                    'program spinning on %s was still waiting after 5000 polls, %d stop(s); typed %r; output %r' % (
+                                        op['via'].upper(), stops, exp, outs))
+                        return
+                    if not started or r.err is not None:
+                        # not judged: empty the buffer and carry on
+                        run.probe('spinbreak_not_judged')
+                        w._at_poll.clear()
+                        w.inputs.pending.clear()
+                        d.exec(b'DEF SEG=0:POKE 1050,PEEK(1052)', poll_cap=200)
+                        d.exec(b'WHILE INKEY$<>"":WEND', poll_cap=400)
+                        continue
+                    got = d.get(b'R$')
+                    run.probe('spin_runs')
+                    if got != exp:
+                        lost = len(got) < len(exp)
+                        run.violate('C37', 'async-order-or-loss:with-break-between-keys:' + ('lost' if lost else 'other'),
+                                    'program spinning on %s, stopped by Ctrl+Break %d time(s) and continued, collected %r; typed %r; output %r' % (
+                                        op['via'].upper(), stops, got, exp, outs))
                         return
                     d.exec(b'DEF SEG=0')
                 elif k == 'lineinput':
